@@ -15,14 +15,158 @@ fn cs_cases(tier: Tier) -> u64 {
     }
 }
 
+fn comm(pid: u32, tid: u32, name: &str, t: u64) -> Rec {
+    Rec::Comm { pid, tid, name: name.to_string(), exec: false, t }
+}
+fn exec(pid: u32, name: &str, t: u64) -> Rec {
+    Rec::Comm { pid, tid: pid, name: name.to_string(), exec: true, t }
+}
+fn fork(pid: u32, tid: u32, ppid: u32, ptid: u32, t: u64) -> Rec {
+    Rec::Fork { pid, tid, ppid, ptid, t }
+}
+fn exit(pid: u32, tid: u32, t: u64) -> Rec {
+    Rec::Exit { pid, tid, t }
+}
+fn sample(pid: u32, tid: u32, t: u64) -> Rec {
+    Rec::Sample { pid, tid, t, kernel: false, period: 1_000_000, ip: 0x1010, chain: vec![] }
+}
+
+/// `--reuse-threads` histories over a pool of two names, so that rename-with-recycling (a non-exec COMM onto
+/// the name of an exited process / thread) and the hand-over of the renamer's old track through the pool happen
+/// in most cases: two Process objects then buffer samples for one profile thread and flush them in
+/// non-chronological order (review_D C01 §5.3; seeded change C01-3).
+fn gen_two_name_reuse(rng: &mut Rng, len: u64) -> History {
+    const TWO: [&str; 2] = ["worker", "launcher"];
+    let mut h = History { reuse: true, ..Default::default() };
+    let mut t = 1_000_000 * rng.range(1, 20);
+    let mut live: Vec<(u32, Vec<u32>)> = Vec::new();
+    let mut next_pid = 100u32;
+    for _ in 0..len {
+        t += 1000 * rng.range(1, 500);
+        let choice = rng.below(100);
+        if live.is_empty() || (choice < 15 && live.len() < 4) {
+            // a new process: announced by COMM, or FORK (+ EXEC under one of the two names)
+            let pid = next_pid;
+            next_pid += 10;
+            if live.is_empty() || rng.chance(1, 2) {
+                h.recs.push(comm(pid, pid, *rng.pick(&TWO), t));
+            } else {
+                let parent = live[rng.below(live.len() as u64) as usize].0;
+                h.recs.push(fork(pid, pid, parent, parent, t));
+                if rng.chance(3, 4) {
+                    h.recs.push(exec(pid, *rng.pick(&TWO), t + 1));
+                }
+            }
+            live.push((pid, Vec::new()));
+            continue;
+        }
+        let k = rng.below(live.len() as u64) as usize;
+        let pid = live[k].0;
+        match choice {
+            0..=49 => {
+                let tid = if live[k].1.is_empty() || rng.chance(1, 2) { pid } else { *rng.pick(&live[k].1) };
+                h.recs.push(sample(pid, tid, t));
+            }
+            50..=64 => {
+                // non-exec rename of the process or of a thread onto one of the two names
+                let tid = if live[k].1.is_empty() || rng.chance(1, 2) { pid } else { *rng.pick(&live[k].1) };
+                h.recs.push(comm(pid, tid, *rng.pick(&TWO), t));
+            }
+            65..=74 => {
+                let tid = pid + 1 + live[k].1.len() as u32;
+                h.recs.push(fork(pid, tid, pid, pid, t));
+                h.recs.push(comm(pid, tid, *rng.pick(&TWO), t + 1));
+                live[k].1.push(tid);
+            }
+            75..=82 if !live[k].1.is_empty() => {
+                let tid = live[k].1.remove(0);
+                h.recs.push(exit(pid, tid, t));
+            }
+            83..=89 => {
+                h.recs.push(exec(pid, *rng.pick(&TWO), t));
+                live[k].1.clear();
+            }
+            _ => {
+                for tid in live[k].1.clone() {
+                    h.recs.push(exit(pid, tid, t));
+                }
+                h.recs.push(exit(pid, pid, t));
+                live.remove(k);
+            }
+        }
+    }
+    let first_sample = h.recs.iter().find_map(|r| if let Rec::Sample { t, .. } = r { Some(*t) } else { None });
+    h.ref_time = first_sample.unwrap_or(0);
+    h
+}
+
+const TWO_NAME_CASES: u64 = 60;
+
 impl Prop for C01 {
     fn id(&self) -> &'static str {
         "C01"
     }
+    fn fixed_cases(&self, _tier: Tier) -> Vec<Case> {
+        let mut v = Vec::new();
+        // rename-with-recycling + pool hand-over (the chain of seeded C01-3): A "worker" exits; B "launcher",
+        // sampled twice, renames itself to "worker" (takes A's track, its own goes to the pool under
+        // "launcher"); C forks, execs as "launcher" (takes B's old track), is sampled and exits first; B's two
+        // earlier samples are flushed onto the same track after C's later one
+        let recs = vec![
+            comm(100, 100, "worker", 1000),
+            sample(100, 100, 2000),
+            exit(100, 100, 3000),
+            comm(200, 200, "launcher", 4000),
+            sample(200, 200, 5000),
+            sample(200, 200, 7000),
+            comm(200, 200, "worker", 8000),
+            fork(300, 300, 200, 200, 9000),
+            exec(300, "launcher", 10000),
+            sample(300, 300, 14000),
+            sample(300, 300, 16000),
+            exit(300, 300, 17000),
+            sample(200, 200, 18000),
+        ];
+        for (k, reuse) in [true, false].into_iter().enumerate() {
+            let h = History { reuse, ref_time: 2000, recs: recs.clone(), ..Default::default() };
+            v.push(Case { name: format!("reuse-rename-recycle-{k}"), ops: h.to_ops() });
+        }
+        // the same hand-over between threads of one process
+        let recs = vec![
+            comm(100, 100, "app", 1000),
+            fork(100, 101, 100, 100, 1100),
+            comm(100, 101, "worker", 1200),
+            sample(100, 101, 2000),
+            exit(100, 101, 3000),
+            fork(100, 102, 100, 100, 3100),
+            comm(100, 102, "launcher", 3200),
+            sample(100, 102, 5000),
+            sample(100, 102, 7000),
+            comm(100, 102, "worker", 8000),
+            fork(100, 103, 100, 100, 9000),
+            comm(100, 103, "launcher", 9100),
+            sample(100, 103, 14000),
+            sample(100, 102, 18000),
+        ];
+        v.push(Case { name: "reuse-thread-rename-recycle".to_string(), ops: History { reuse: true, ref_time: 2000, recs, ..Default::default() }.to_ops() });
+        // a back-dated sample of a known thread (file breaking the round contract): the debug build panics at
+        // shared/context_switch.rs:147; of another thread: converted (C01 holds)
+        for (k, late) in [sample(100, 100, 2000), sample(100, 101, 2000), sample(200, 200, 500)].into_iter().enumerate() {
+            let h = history_from_file_rounds(
+                1000,
+                vec![vec![comm(100, 100, "app", 1000), sample(100, 100, 1500)], vec![sample(100, 100, 3000)], vec![late, sample(100, 100, 4000)], vec![sample(100, 100, 5000)]],
+            );
+            v.push(Case { name: format!("backdated-sample-{k}"), ops: h.to_ops() });
+        }
+        // sample times before the reference time; time-0 head
+        let recs = vec![comm(100, 100, "app", 0), fork(100, 101, 100, 100, 0), sample(100, 100, 2000), sample(100, 101, 2000), sample(100, 100, 3000), exit(100, 101, 3500), sample(100, 100, 5000), sample(100, 101, 6000)];
+        v.push(Case { name: "samples-before-ref".to_string(), ops: History { ref_time: 5000, recs, ..Default::default() }.to_ops() });
+        v
+    }
     fn case_count(&self, tier: Tier) -> u64 {
         match tier {
-            Tier::Quick => 400 + cs_cases(Tier::Quick),
-            Tier::Thorough => 20000 + cs_cases(Tier::Thorough),
+            Tier::Quick => 400 + TWO_NAME_CASES + cs_cases(Tier::Quick),
+            Tier::Thorough => 20000 + 20 * TWO_NAME_CASES + cs_cases(Tier::Thorough),
         }
     }
     fn generate(&self, rng: &mut Rng, tier: Tier, index: u64) -> Vec<String> {
@@ -33,17 +177,35 @@ impl Prop for C01 {
             let shape = CsShape { max_len: if tier == Tier::Quick { 80 } else { 250 }, lifecycle: rng.chance(2, 3), allow_reuse: true };
             return gen_cs_history(rng, &shape).to_ops();
         }
+        let two = if tier == Tier::Quick { TWO_NAME_CASES } else { 20 * TWO_NAME_CASES };
+        if index >= self.case_count(tier) - cs_cases(tier) - two {
+            // --reuse-threads over a two-name pool
+            let len = rng.range(8, if tier == Tier::Quick { 60 } else { 150 });
+            return gen_two_name_reuse(rng, len).to_ops();
+        }
         let mut shape = SHAPE_QUICK.clone();
         if tier == Tier::Thorough {
             shape.max_len = 300;
         }
-        gen_history(rng, &shape).to_ops()
+        let mut h = gen_history(rng, &shape);
+        // a sixth of the histories: out-of-order delivery (records of round N+2 older than records of round N,
+        // back-dated samples / MMAP2 / lifecycle records, COMM / FORK / MMAP2 stamped 0 in the middle)
+        if rng.chance(1, 6) {
+            out_of_order(&mut h, rng, OooKinds { samples: true, mmap2: true, lifecycle: true, zero: true });
+        }
+        h.to_ops()
     }
     fn execute(&self, ops: &[String], stats: &mut Stats) -> Vec<String> {
         let Some(h) = History::from_ops(ops) else {
             return vec!["bad-op".to_string()];
         };
         count_history(&h, stats);
+        if !h.layout.is_empty() {
+            stats.bump("explicit_layout");
+            if h.recs.windows(2).any(|w| w[0].time() > w[1].time()) {
+                stats.bump("delivery_not_time_ordered");
+            }
+        }
         let dir = work_tmp("C01");
         let tag = format!("c{:016x}", fnv1a(ops));
         if let Some(cs) = &h.cs {
